@@ -98,8 +98,11 @@ def gen_topology(rng, level):
     if level >= 1 and rng.random() < 0.6 and balls >= 2:
         t = timing()
         if rng.random() < 0.3:
-            lock = _dev("bd_lock", rng.randint(1, 2), "pulse", "playfield", "", counter="entrance",
-                        settle_time_ms=rng.choice([200, 500, 2000]), **t)
+            lanes = rng.choice([1, 2, 2])
+            lock = _dev("bd_lock", rng.randint(1, 2) if lanes == 1 else rng.randint(2, 3), "pulse", "playfield", "",
+                        counter="entrance", settle_time_ms=rng.choice([200, 500, 2000]), lanes=lanes,
+                        ignore_window_ms=rng.choice([0, 500, 1000, 3000]) if lanes == 2 else rng.choice([0, 0, 500]),
+                        **t)
         elif rng.random() < 0.2:
             # hold-coil lock: balls are held while the coil is enabled, one is released per disable
             lock = _dev("bd_lock", rng.randint(1, 2), "hold", "playfield", "", release_time_ms=rng.choice([300, 1000]),
@@ -137,7 +140,8 @@ def gen_topology(rng, level):
     topo = {"balls": balls, "source": "bd_trough" if kind == "direct" else ("bd_stage" if chain3 else "bd_plunger"),
             "balls_per_game": rng.randint(1, 3), "devices": devices, "logic": logic,
             "kind": ("gt_" if gottlieb else "") + ("chain3_" if chain3 else "") + kind + ("2" if kind == "pulse" and lane_slots == 2 else "") +
-            ("+drain" if has_drain else "") + ("+lock" + (lock["counter"][0] if lock["ejector"] != "hold" else "h") if lock else "") +
+            ("+drain" if has_drain else "") + ("+lock" + (lock["counter"][0] if lock["ejector"] != "hold" else "h") + ("2" if lock.get("lanes", 1) > 1 else "")
+             if lock else "") +
             ("+en" if trough_ej == "enable" else "") + ("+vuk" if vuk else "") + ("+mbl" if mblock else "")}
     return topo
 
@@ -183,8 +187,17 @@ def gen_ops(rng, topo, n_ops, rests):
             seq.append(["drain", rng.choice([0.6, 4.0, 9.0])])
         return seq
 
+    def chain_lost():
+        """Three-device chain: a ball requested for the staging device gets lost between trough and launcher (it ends on
+        the playfield and drains back later); afterwards a further ball is requested through the same launcher."""
+        return [["fault", "bd_trough", "stray"], ["ev", "ev_req_stage", 0.5], ["wait", 60.0], ["drain", 1.0],
+                ["wait", 25.0], ["ev", rng.choice(["ev_add_ball", "ev_req_stage", "ev_add_ball"]), 0.5],
+                ["wait", 45.0], ["rest"]]
+
     ops = [["wait", rng.choice([1.0, 3.0])]]
-    if gottlieb and rng.random() < 0.6:
+    if any(d["name"] == "bd_stage" for d in topo["devices"]) and rng.random() < 0.4:
+        ops += chain_lost()
+    elif gottlieb and rng.random() < 0.6:
         ops += gt_fill()
     elif pulse_devs and rng.random() < 0.12:
         ops += coil_test() + [["rest"]]
@@ -227,7 +240,11 @@ def gen_ops(rng, topo, n_ops, rests):
     bursts = ["double_request"]     # a second (third) manual request while the first eject is still running
     if gottlieb:
         bursts.append("gt_fill")
+    lock_dev = next((d for d in topo["devices"] if d["name"] == "bd_lock"), None)
+    if lock_dev and lock_dev.get("lanes", 1) > 1:
+        bursts += ["twin_lock", "twin_lock"]    # two balls enter the lock (by whatever lanes) close together
     if "bd_stage" in names:
+        bursts += ["chain_lost"]
         bursts += ["chain_double", "chain_double"]   # a further request while the launcher's ball is in flight
         kinds += ["ev:ev_req_stage"]
     if "multiball_lock" in logic:
@@ -254,6 +271,15 @@ def gen_ops(rng, topo, n_ops, rests):
                 ops.append(["ev", "ev_add_ball", rng.choice(DTS)])
                 for _ in range(rng.randint(1, 2)):
                     ops.append(["ev", "ev_add_ball", rng.choice([0.3, 1.5, 3.0, 5.0])])
+            elif b == "twin_lock":
+                tr = rng.choice([0.2, 0.5])
+                ops.append(["ev", "ev_add_ball", rng.choice([0.2, 4.0])])
+                ops.append(["wait", 45.0 if slow_lane else 12.0])
+                ops.append(["lock", rng.choice([0.2, 1.5]), tr])
+                ops.append(["lock", rng.choice([0.0, 0.05, 0.15, 0.3, 0.6, 1.5]), tr])
+                ops.append(["wait", 12.0])
+            elif b == "chain_lost":
+                ops += chain_lost()
             elif b == "chain_double":
                 ops.append(["ev", rng.choice(["ev_add_ball", "ev_req_stage"]), rng.choice(DTS)])
                 for _ in range(rng.randint(1, 2)):
@@ -344,7 +370,7 @@ def gen_phys(rng, topo, fault_level):
 
 def shape_of(case):
     topo = case["topo"]
-    ops = "".join({"start": "S", "wait": "w", "drain": "D", "lock": "L", "vuk": "V", "lane": "l", "pulse": "P", "pf": "p", "ev": "e", "rest": "R"}.get(o[0], "?") for o in case["ops"])
+    ops = "".join({"start": "S", "wait": "w", "drain": "D", "lock": "L", "vuk": "V", "lane": "l", "pulse": "P", "fault": "f", "pf": "p", "ev": "e", "rest": "R"}.get(o[0], "?") for o in case["ops"])
     faults = ",".join("%s:%s" % (k[3:5], "".join(x[0] if x != "back_late" else "B" for x in v))
                       for k, v in sorted(case["phys"].get("faults", {}).items()))
     holds = "h" + "".join(k[3] for k in sorted(case["phys"].get("holds", {})))
@@ -725,7 +751,11 @@ def run_world_case(case, horizon):
                 elif k == "lock":
                     vm.advance(float(op[1]))
                     if "bd_lock" in world.devs:
-                        world.move_loose_ball("bd_lock", kind="lock_shots")
+                        world.move_loose_ball("bd_lock", transit=float(op[2]) if len(op) > 2 else None,
+                                              kind="lock_shots")
+                elif k == "fault":
+                    if op[1] in world.devs:
+                        world.next_kick(op[1], op[2])
                 elif k == "pulse":
                     # ["pulse", device, gaps...]: coil test fires the eject coil 1-3 times
                     vm.advance(float(op[2]))
@@ -907,7 +937,10 @@ def evaluate_rest(mon, world, rested, horizon, trace):
                        any(e.target is d for e in list(devs[s].outgoing_balls_handler._eject_queue._queue))]
             if not feeding:
                 sig += "_no_source_sends_one"
-                if mon.missing_events:
+                mech = any(dd["ejector"] in ("mech", "mech_coil") for dd in mon.topo["devices"])
+                if mon.missing_events and not mech:
+                    sig += "_after_lost_ball_path_restore"  # no mechanical-eject device: not the skip-wait mechanism
+                elif mon.missing_events:
                     sig += "_after_lost_ball_handling"      # cancel_path / restore-path bookkeeping
                     if _skip_race_config(mon.topo):
                         # a mechanical device's eject timeout == its feeder's ball_missing_timeout: the skip wait
